@@ -118,7 +118,9 @@ func c08EvilErrors(r *Result) {
 		{"handler returns a pointer error with a nil field", func(*kmip.RequestContext, *kmip.RequestBatchItem) (interface{}, error) { return nil, &nilDerefErr{} }},
 		{"handler returns an error whose Error method panics", func(*kmip.RequestContext, *kmip.RequestBatchItem) (interface{}, error) { return nil, panickyErr{} }},
 		{"handler returns a struct embedding a nil error", func(*kmip.RequestContext, *kmip.RequestBatchItem) (interface{}, error) { return nil, embeddedNilErr{} }},
-		{"handler returns a kmip.Error whose ResultReason method panics", func(*kmip.RequestContext, *kmip.RequestBatchItem) (interface{}, error) { return nil, panickyReasonErr{} }},
+		{"handler returns a kmip.Error whose ResultReason method panics", func(*kmip.RequestContext, *kmip.RequestBatchItem) (interface{}, error) {
+			return nil, panickyReasonErr{}
+		}},
 		{"handler panics with nil (GODEBUG panicnil=1, the meaning under the library's declared go 1.16)", func(*kmip.RequestContext, *kmip.RequestBatchItem) (interface{}, error) { panic(nil) }},
 	}
 	for _, c := range cases {
